@@ -286,4 +286,51 @@ Example C02_engine_example_F3_reduce :
   (exists st T, run 600 (init (print p)) [] = Done st T /\ text_of T = words_text [1; 3; 2; 1]%Z).
 Proof. vm_compute. repeat split; eexists; try eexists; repeat split. Qed.
 
+(* \expandafter\a\b (NExpandAfter a b) is in F3, in program text, bodies and arguments: expandafter.invoke takes the two tokens,
+   expands \b once and pushes \a and the expansion back; the reference evaluator lets \a find its arguments in the brace groups
+   the body of \b starts with.  gdef_safe demands what the Model of expandafter.invoke follows: \b is a parameterless \def whose
+   body is non-empty argument text, \a has no optional argument.
+   \def\A#1#2{#2#1}\def\B{{W1 }{W2 }W3 }\expandafter\A\B W4 \def\C#1{\expandafter\A\B #1}\C{W5 }   ->   W2 W1 W3 W4 W2 W1 W3 W5 *)
+Example C02_engine_example_expandafter :
+  let p := ([NDef false 1 2 None [NParam 2; NParam 1]; NDef false 2 O None [NGroup [NWord 1]; NGroup [NWord 2]; NWord 3];
+            NExpandAfter 1 2; NWord 4;
+            NDef false 3 1 None [NExpandAfter 1 2; NParam 1]; NCall 3 None [[NWord 5]]])%Z in
+  in_F3 p = true /\ gdef_safe 100 p = true /\
+  (exists e, den 100 p = Ok e [5; 3; 1; 2; 4; 3; 1; 2]%Z) /\
+  (exists st T, run 600 (init (print p)) [] = Done st T /\ text_of T = words_text [2; 1; 3; 4; 2; 1; 3; 5]%Z).
+Proof. vm_compute. repeat split; eexists; try eexists; repeat split. Qed.
+
 Print Assumptions C02_engine_simulates_F3.
+
+(* ---- delimited parameters in the engine (token level) ----
+   Not part of run . print = den (the program printer has no delimiters).  For every parameter text of the normal form of
+   C02_match_roundtrip (literal prefix; up to 9 parameters, each undelimited or delimited by one or more tokens) in which no
+   token is a brace and which does not begin with a blank, every body of the normal form of C02_expand_def_substitutes with
+   balanced braces, and every conforming call - written with the braces { } the Tokenizer makes (render_call_bg; C02_match_roundtrip
+   is about BeginGroup(' ') tokens) -: started on  \def\nm<parameter text>{<body>}\nm<arguments><rest>  with a fresh context,
+   the expansion loop defines \nm (what \def stores: parameter text and body as written), yields the \def instance and replaces the
+   call by the body with every #k replaced by the k-th argument; <rest> is untouched.  (EngineProofs.exec: iterations of TeX.__iter__.) *)
+Theorem C02_engine_delimited_parameters :
+  forall (p : pattern) (b : list piece) (args : list (list tok)) (rest : list tok) (nm : list N),
+    pattern_ok p = true -> call_ok (ps p) args = true -> body_ok false b = true -> render_pattern p <> [] ->
+    forallb (fun t => negb (is_bgroup t)) (render_pattern p) = true ->
+    match render_pattern p with t :: _ => is_space t = false | [] => True end ->
+    depth_after (render_body b) O = Some O ->
+    exec (init (esc s_def :: Tok CC_ESCAPE nm :: render_pattern p ++ bg :: render_body b ++ eg ::
+                Tok CC_ESCAPE nm :: render_call_bg p args ++ rest))
+         [prim_elem (PDef false)]
+         (St (subst_body args b ++ rest) [] ((nm, MDef (render_pattern p) (render_body b)) :: base_frame)).
+Proof. exact engine_delimited_parameters. Qed.
+Print Assumptions C02_engine_delimited_parameters.
+
+(* non-vacuity:  \def\a!#1.#2#3;:{[#3#1]}\a!x.{y}z;:w   ->   [zx]w     (prefix "!", #1 delimited by ".", #2 undelimited, #3 by ";:") *)
+Example C02_engine_delimited_example :
+  let o := fun c : N => Tok CC_OTHER [c] in
+  let p := {| pre := [o 33]; ps := [PD (o 46) []; PU; PD (o 59) [o 58]] |} in
+  let b := [PLit (o 91); PArg 3; PArg 1; PLit (o 93)] in
+  let args := [[o 120]; [o 121]; [o 122]] in
+  pattern_ok p = true /\ call_ok (ps p) args = true /\ body_ok false b = true /\
+  (exists st T, run 50 (init (esc s_def :: Tok CC_ESCAPE [97] :: render_pattern p ++ bg :: render_body b ++ eg ::
+                               Tok CC_ESCAPE [97] :: render_call_bg p args ++ [o 119])) [] = Done st T /\
+                text_of T = [o 91; o 122; o 120; o 93; o 119]).
+Proof. vm_compute. repeat split; eexists; try eexists; repeat split. Qed.
